@@ -183,27 +183,43 @@ func c04Discovery(c *core.Ctx, info *c04Info) {
 	f := ap.f
 	c.Count("functions_analysed", 1)
 	cons := ap.cons()
-	// publishing points: calls of a publishing function, or (when the apply function stores by
-	// itself) of NewLoadBalancer
-	var creates []*ast.CallExpr
-	listArg := map[*ast.CallExpr]ast.Expr{}
-	for _, call := range calls(f.Body, false) {
-		fo, _ := f.Callee(call).(*types.Func)
-		if fo == nil || (info.roles.publish[fo] == nil && !(fo == info.newLB && info.roles.publish[ap.obj] != nil)) {
-			continue
-		}
-		for _, a := range call.Args {
-			if tv, ok := f.Info.Types[a]; ok && tv.Type != nil && types.Identical(tv.Type, info.listType) && listArg[call] == nil {
-				listArg[call] = a
-			}
-		}
-		creates = append(creates, call)
-	}
-	if !c.RequireCount("R-C04-7", "calls of the publishing function in the apply function", len(creates), 1) {
-		return
-	}
 	specServers := structField(c, c04pkg, "ServerPoolSpec", "Servers")
 	if specServers == nil {
+		return
+	}
+	// publishing points: calls of a function that publishes the list it is given (directly, through
+	// helpers, or the apply function itself calling the dispatch) or that publishes the static list
+	sum := &c04PubSum{info: info, spec: specServers, memo: map[*types.Func]*c04PubKind{}}
+	var creates []*ast.CallExpr
+	listArg := map[*ast.CallExpr]ast.Expr{}
+	staticPoint := map[*ast.CallExpr]bool{}
+	for _, call := range calls(f.Body, false) {
+		fo, _ := f.Callee(call).(*types.Func)
+		if fo == nil {
+			continue
+		}
+		switch {
+		case info.dispatch[fo] && info.roles.publish[ap.obj] != nil:
+			for _, a := range call.Args {
+				if tv, ok := f.Info.Types[a]; ok && tv.Type != nil && types.Identical(tv.Type, info.listType) && listArg[call] == nil {
+					listArg[call] = a
+				}
+			}
+			creates = append(creates, call)
+		case fo.Pkg() == f.Pkg.Types:
+			k := sum.of(f, fo)
+			if k == nil {
+				continue
+			}
+			if k.static {
+				staticPoint[call] = true
+			} else if k.idx < len(call.Args) {
+				listArg[call] = call.Args[k.idx]
+			}
+			creates = append(creates, call)
+		}
+	}
+	if !c.RequireCount("R-C04-7", "calls of the publishing function in the apply function", len(creates), 1) {
 		return
 	}
 	isStatic := func(e ast.Expr) bool { return c04SelObj(f.Info, e) == types.Object(specServers) }
@@ -399,6 +415,19 @@ func c04Discovery(c *core.Ctx, info *c04Info) {
 	for _, cr := range creates {
 		if !okArg {
 			break
+		}
+		if staticPoint[cr] {
+			// `sp.useStaticServers()`: publishes spec.Servers — allowed exactly where the filtered
+			// list is known empty
+			for _, st := range res.At[cr] {
+				nStates++
+				if !q.zeroK(st, lenK) {
+					okArg = false
+					c.Violate("R-C04-7", cons+"|list handed to createLoadBalancer", pos(c, cr), "the static servers are published in a state where the filtered list is not known to be empty: qualifying discovered instances are ignored", witness(st)...)
+					break
+				}
+			}
+			continue
 		}
 		if listArg[cr] == nil {
 			c.Undecide("R-C04-7", cons+"|list handed to createLoadBalancer", pos(c, cr), "the publishing call takes no []*Server argument")
@@ -630,4 +659,93 @@ func c04DiscoveryAppends(c *core.Ctx, cons string, b *c04Builder) {
 	} else {
 		c.Discharge("R-C04-7", cons+"|append only tagged instances, once", pos(c, b.appends[0]), sprintf("%d append sites (in %s) reached only with a membership test true and not yet appended in this iteration", len(b.appends), g.Name))
 	}
+}
+
+// c04PubSum summarises same-package functions that publish a balancer: for the list they are
+// given as parameter idx, or for the static servers of the spec.
+type c04PubKind struct {
+	static bool
+	idx    int
+}
+
+type c04PubSum struct {
+	info *c04Info
+	spec *types.Var
+	memo map[*types.Func]*c04PubKind
+	busy map[*types.Func]bool
+}
+
+func (p *c04PubSum) of(f *flow.Func, fo *types.Func) *c04PubKind {
+	if k, ok := p.memo[fo]; ok {
+		return k
+	}
+	if p.busy == nil {
+		p.busy = map[*types.Func]bool{}
+	}
+	if p.busy[fo] {
+		return nil
+	}
+	p.busy[fo] = true
+	defer delete(p.busy, fo)
+	var out *c04PubKind
+	defer func() { p.memo[fo] = out }()
+	fd := declOf(f.Pkg, fo)
+	if fd == nil {
+		return nil
+	}
+	g := funcOf(f.Pkg, fd)
+	// it must actually reach a Store into the pool's slot
+	reaches := false
+	for _, h := range reach(g, 3) {
+		if hd, ok := h.Node.(*ast.FuncDecl); ok {
+			if o, _ := g.Info.Defs[hd.Name].(*types.Func); o != nil && p.info.roles.publish[o] != nil {
+				reaches = true
+			}
+		}
+	}
+	if !reaches {
+		return nil
+	}
+	q := c04NewFacts(g, nil)
+	for _, call := range calls(fd.Body, false) {
+		cf, _ := g.Callee(call).(*types.Func)
+		if cf == nil {
+			continue
+		}
+		var arg ast.Expr
+		switch {
+		case p.info.dispatch[cf]:
+			for _, a := range call.Args {
+				if tv, ok := g.Info.Types[a]; ok && tv.Type != nil && types.Identical(tv.Type, p.info.listType) && arg == nil {
+					arg = a
+				}
+			}
+		case cf.Pkg() == g.Pkg.Types && cf != fo:
+			k := p.of(g, cf)
+			if k == nil {
+				continue
+			}
+			if k.static {
+				out = &c04PubKind{static: true}
+				return out
+			}
+			if k.idx < len(call.Args) {
+				arg = call.Args[k.idx]
+			}
+		}
+		if arg == nil {
+			continue
+		}
+		if c04SelObj(g.Info, arg) == types.Object(p.spec) {
+			out = &c04PubKind{static: true}
+			return out
+		}
+		if id, ok := q.resolve(arg).(*ast.Ident); ok {
+			if idx := c04ParamPos(g.Info, fd, c04ObjOf(g.Info, id)); idx >= 0 && !q.unsafe[c04ObjOf(g.Info, id)] && q.defs[c04ObjOf(g.Info, id)] == nil {
+				out = &c04PubKind{idx: idx}
+				return out
+			}
+		}
+	}
+	return nil
 }
